@@ -23,6 +23,7 @@ import (
 	"rivaas.dev/app"
 	rverrors "rivaas.dev/errors"
 	"rivaas.dev/logging"
+	"rivaas.dev/middleware/timeout"
 	"rivaas.dev/router"
 	"rivaas.dev/router/route"
 	"rivaas.dev/router/version"
@@ -205,6 +206,12 @@ type ReqState struct {
 	App *app.App
 	// ac: the app context of the app-level position that is running (nil for router-level handlers)
 	ac *app.Context
+	// act T (a timeout middleware with a real budget sits in front of the chain): when the request started, the
+	// budget, whether a T act was reached, and whether the deadline may have passed before one was (timing artefact)
+	Start    time.Time
+	Budget   time.Duration
+	TReached bool
+	Late     bool
 }
 
 // states of requests that travel through a real HTTP server (no context value survives the wire):
@@ -420,6 +427,17 @@ func runActs(c *router.Context, st *ReqState, hid int, acts []Act) {
 			_ = c.JSON(StatusOf(hid), map[string]int{"h": hid})
 		case "R":
 			return
+		case "T":
+			// overrun the budget of the timeout middleware in front of the chain: go on only when its deadline has passed
+			if !st.TReached && st.Budget > 0 && time.Since(st.Start) >= st.Budget {
+				st.Late = true
+			}
+			st.TReached = true
+			select {
+			case <-c.Request.Context().Done():
+			case <-time.After(3 * time.Second):
+				st.Late = true
+			}
 		case "F":
 			// refuse the request the way app handlers do: c.Fail(err) = Abort + error response (router-level
 			// handlers: Abort + a response of their own). V = 1: the error's details cannot be encoded.
@@ -590,6 +608,8 @@ type World struct {
 	// FailWrites: every body write reports an error after the bytes were taken (a connection that breaks);
 	// nobody aborted and the request context is alive, so the chain goes on as if the write had succeeded
 	FailWrites bool
+	// TimeoutBudget: the budget of the timeout middleware in front of router 0's chains (0 = none)
+	TimeoutBudget time.Duration
 }
 
 type brokenPipe struct{ *httptest.ResponseRecorder }
@@ -602,15 +622,18 @@ func (w brokenPipe) Write(p []byte) (int, error) {
 // Options of Build.
 type BuildOpts struct {
 	Check    bool
-	Compiled bool                 // router.WithRouteCompilation(true): static routes are served from the compiled table
-	Obs      bool                 // app world: observability (logging to io.Discard) on — c.Response is the size-tracking observability writer
-	Tracing  bool                 // app world: app.WithObservability(app.WithTracing(tracing.WithNoop()))
-	Fmt      bool                 // app world: app.WithErrorFormatter(RFC 9457 with StatusResolver)
-	Health   bool                 // app world: app.WithHealthEndpoints() (built-in /livez and /readyz)
-	NoRoute  bool                 // a custom NoRoute handler that calls Abort() (served on a pooled context without a chain)
-	CtorMw   []int                // app world: middleware given through app.WithMiddleware(...) at construction
-	Defaults bool                 // app world: keep the default middleware (recovery)
-	Pre      []router.HandlerFunc // router world: installed with Use before the script runs (C10: recovery)
+	Compiled bool // router.WithRouteCompilation(true): static routes are served from the compiled table
+	Obs      bool // app world: observability (logging to io.Discard) on — c.Response is the size-tracking observability writer
+	Tracing  bool // app world: app.WithObservability(app.WithTracing(tracing.WithNoop()))
+	Fmt      bool // app world: app.WithErrorFormatter(RFC 9457 with StatusResolver)
+	Health   bool // app world: app.WithHealthEndpoints() (built-in /livez and /readyz)
+	// TimeoutMs > 0 (router world): timeout.New(WithDuration(ms), WithoutLogging(), WithHandler(writes nothing)) is the
+	// first global middleware of router 0 — transparent for the chain until a handler overruns the budget (act T)
+	TimeoutMs int
+	NoRoute   bool                 // a custom NoRoute handler that calls Abort() (served on a pooled context without a chain)
+	CtorMw    []int                // app world: middleware given through app.WithMiddleware(...) at construction
+	Defaults  bool                 // app world: keep the default middleware (recovery)
+	Pre       []router.HandlerFunc // router world: installed with Use before the script runs (C10: recovery)
 }
 
 func usesApp(script []Op) bool {
@@ -667,6 +690,11 @@ func Build(script []Op, bo BuildOpts) (w *World, err error) {
 		w.Routers = []*router.Router{router.MustNew(ropts...)}
 		if len(bo.Pre) > 0 {
 			w.Routers[0].Use(bo.Pre...)
+		}
+		if bo.TimeoutMs > 0 {
+			w.TimeoutBudget = time.Duration(bo.TimeoutMs) * time.Millisecond
+			w.Routers[0].Use(timeout.New(timeout.WithDuration(w.TimeoutBudget), timeout.WithoutLogging(),
+				timeout.WithHandler(func(*router.Context, time.Duration) {})))
 		}
 	}
 	if bo.NoRoute {
@@ -813,6 +841,9 @@ type Result struct {
 	Status  int
 	Body    []int
 	Escaped int // -1 = no panic left ServeHTTP
+	// Discard: the run is no observation (the real budget of the timeout middleware ran out before the handler
+	// program said so: a timing artefact)
+	Discard string
 }
 
 // ParseBody splits a response body into JSON values and names their writers.
@@ -854,6 +885,7 @@ func (w *World) ServeOn(h http.Handler, t Target, st *ReqState) Result {
 	defer cancel()
 	st.Cancel = cancel
 	st.App = w.App
+	st.Budget = w.TimeoutBudget
 	req := httptest.NewRequest(http.MethodGet, SegPath(t.Path), strings.NewReader(`{"name":"x"}`)).WithContext(ctx)
 	req.Header.Set("Content-Type", "application/json")
 	if t.Ver >= 0 {
@@ -871,8 +903,12 @@ func (w *World) ServeOn(h http.Handler, t Target, st *ReqState) Result {
 				res.Escaped = PanicIndex(p)
 			}
 		}()
+		st.Start = time.Now()
 		h.ServeHTTP(rw, req)
 	}()
+	if st.Late || (st.Budget > 0 && !st.TReached && time.Since(st.Start) >= st.Budget) {
+		res.Discard = "the budget of the timeout middleware ran out before the handler program overran it"
+	}
 	res.Trace = st.Log
 	res.Status = rec.Code
 	res.Body = ParseBody(rec.Body.Bytes())
